@@ -7,10 +7,14 @@
 (* AddRoute / AddDest (copy-on-write snapshots in the code; here no dispatch  *)
 (* is in flight while the table changes -- that is property C18's model).     *)
 (* One dispatch runs through the program counter                              *)
-(*   validate -> black -> rw -> agg -> route (-> dest)* -> done               *)
+(*   validate -> order -> black -> rw -> agg -> route (-> dest)* -> done      *)
 (* mirroring the code:                                                        *)
 (*   numIn.Inc; ValidatePacket, on error bad.Add + numInvalid.Inc + return    *)
-(*   (order check off)                                                        *)
+(*   if conf.Validate_order { Ordered(key, ts), on error bad.Add +            *)
+(*                            numOutOfOrder.Inc + return }                    *)
+(*   (ord = validate_order as written in the configuration the table was      *)
+(*    created from; the order register itself is C19's model: a line is       *)
+(*    `newer` than what was accepted for its name before, or not)             *)
 (*   for blacklist: if Match(name) { numBlacklist.Inc; return }               *)
 (*   for rewriters: name = rw.Do(name)                                        *)
 (*   for aggregators: if AddMaybe(..) { return }        (drop-raw)            *)
@@ -27,33 +31,41 @@ EXTENDS DispatchOps, TLC
 CONSTANTS Names,      \* the name universe
           MaxBlack, MaxRw, MaxAgg, MaxRoutes, MaxDests,
           Kinds,      \* route kinds that may be added
+          Orders,     \* validate_order settings ("" = absent, "false", "true") a table may be created with
+          NewerVals,  \* answers of the order register explored: BOOLEAN, or {TRUE} where order validation is off anyway (C01)
           Dev         \* "" or a named deviation
 
 Devs == {"", "break_after_first_route", "skip_last_route", "blacklist_after_rewrite",
          "first_no_break", "all_breaks", "no_return_invalid", "invalid_not_counted",
          "unroutable_ignores_routed", "unroutable_twice", "no_return_blacklist",
-         "dropraw_ignored", "route_filter_on_original_name", "dest_filter_ignored"}
+         "dropraw_ignored", "route_filter_on_original_name", "dest_filter_ignored",
+         "invalid_counted_as_ooo", "ooo_counted_invalid", "order_check_when_off", "no_return_ooo",
+         "order_before_validate"}
 ASSUME Dev \in Devs
+ASSUME Orders # {} /\ Orders \subseteq OrderSettings
+ASSUME NewerVals # {} /\ NewerVals \subseteq BOOLEAN
 
 VARIABLES tbl,      \* the routing table
+          ord,      \* validate_order as written in the configuration the table was created from
           pc,       \* "idle" or the stage of the dispatch in flight
-          ln,       \* the line in flight: [name, valid]
+          ln,       \* the line in flight: [name, valid, newer]
           nm,       \* fields[0], the (rewritten) name
           i, j,     \* loop indices
           routed,   \* the routed flag
           out       \* outcome so far
 
-vars == <<tbl, pc, ln, nm, i, j, routed, out>>
+vars == <<tbl, ord, pc, ln, nm, i, j, routed, out>>
+cvars == <<tbl, ord>>                        \* the configuration
 
 EmptyTable == [black |-> <<>>, rw |-> <<>>, aggs |-> <<>>, routes |-> <<>>]
-NoLine == [name |-> "", valid |-> TRUE]
-NoOut  == [in |-> 0, invalid |-> 0, black |-> 0, unroutable |-> 0, rt |-> <<>>, agg |-> {}]
+NoLine == [name |-> "", valid |-> TRUE, newer |-> TRUE]
+NoOut  == [in |-> 0, invalid |-> 0, ooo |-> 0, black |-> 0, unroutable |-> 0, rt |-> <<>>, agg |-> {}]
 
-Init == /\ tbl = EmptyTable /\ pc = "idle" /\ ln = NoLine /\ nm = "" /\ i = 0 /\ j = 0
+Init == /\ tbl = EmptyTable /\ ord \in Orders /\ pc = "idle" /\ ln = NoLine /\ nm = "" /\ i = 0 /\ j = 0
         /\ routed = FALSE /\ out = NoOut
 
 Filters == SUBSET Names
-dvars == <<pc, ln, nm, i, j, routed, out>>
+dvars == <<ord, pc, ln, nm, i, j, routed, out>>     \* everything but the table contents
 
 \* ------------------------------------------------------------ admin actions
 AddBlack(S) == /\ pc = "idle" /\ Len(tbl.black) < MaxBlack
@@ -83,23 +95,40 @@ Admin == \/ \E S \in Filters : AddBlack(S) \/ AddDest(S)
          \/ \E kind \in Kinds, S \in Filters : AddRoute(kind, S)
 
 \* ---------------------------------------------------------------- dispatch
+FirstStage == IF Dev = "order_before_validate" THEN "order" ELSE "validate"
 Start(l) == /\ pc = "idle"
-            /\ ln' = l /\ nm' = l.name /\ pc' = "validate" /\ i' = 0 /\ j' = 0 /\ routed' = FALSE
+            /\ ln' = l /\ nm' = l.name /\ pc' = FirstStage /\ i' = 0 /\ j' = 0 /\ routed' = FALSE
             /\ out' = [NoOut EXCEPT !.in = 1,                                          \* numIn.Inc(1)
                                     !.rt = [k \in DOMAIN tbl.routes |-> Zero(Width(tbl.routes[k]))]]
-            /\ UNCHANGED tbl
+            /\ UNCHANGED cvars
 
 AfterValidate == IF Dev = "blacklist_after_rewrite" THEN "rw" ELSE "black"
 AfterBlack    == IF Dev = "blacklist_after_rewrite" THEN "agg" ELSE "rw"
 AfterRw       == IF Dev = "blacklist_after_rewrite" THEN "black" ELSE "agg"
 
+\* the gate: validation, then (if configured) the order check, then the table proper
+AfterOrder == IF Dev = "order_before_validate" THEN "validate" ELSE AfterValidate
+
 StepValidate ==
     /\ pc = "validate"
     /\ IF ~ln.valid
-       THEN /\ out' = IF Dev = "invalid_not_counted" THEN out ELSE [out EXCEPT !.invalid = @ + 1]
-            /\ pc' = IF Dev = "no_return_invalid" THEN AfterValidate ELSE "done"       \* return
-       ELSE pc' = AfterValidate /\ out' = out
-    /\ i' = 1 /\ UNCHANGED <<tbl, ln, nm, j, routed>>
+       THEN /\ out' = IF Dev = "invalid_not_counted" THEN out
+                      ELSE IF Dev = "invalid_counted_as_ooo" /\ OrdOn(ord)   \* counter chosen before it is known which check failed
+                           THEN [out EXCEPT !.ooo = @ + 1]
+                           ELSE [out EXCEPT !.invalid = @ + 1]
+            /\ pc' = IF Dev = "no_return_invalid" THEN "order" ELSE "done"            \* return
+       ELSE /\ pc' = IF Dev = "order_before_validate" THEN AfterValidate ELSE "order"
+            /\ out' = out
+    /\ i' = 1 /\ UNCHANGED <<cvars, ln, nm, j, routed>>
+
+StepOrder ==
+    /\ pc = "order"
+    /\ IF (OrdOn(ord) \/ Dev = "order_check_when_off") /\ ~ln.newer                   \* validate.Ordered(key, ts) # nil
+       THEN /\ out' = IF Dev = "ooo_counted_invalid" THEN [out EXCEPT !.invalid = @ + 1]
+                      ELSE [out EXCEPT !.ooo = @ + 1]
+            /\ pc' = IF Dev = "no_return_ooo" THEN AfterOrder ELSE "done"              \* return
+       ELSE pc' = AfterOrder /\ out' = out
+    /\ i' = 1 /\ UNCHANGED <<cvars, ln, nm, j, routed>>
 
 StepBlack ==
     /\ pc = "black"
@@ -109,13 +138,13 @@ StepBlack ==
                  /\ IF Dev = "no_return_blacklist" THEN pc' = pc /\ i' = i + 1
                     ELSE pc' = "done" /\ i' = i                                      \* return
             ELSE pc' = pc /\ i' = i + 1 /\ out' = out
-    /\ UNCHANGED <<tbl, ln, nm, j, routed>>
+    /\ UNCHANGED <<cvars, ln, nm, j, routed>>
 
 StepRw ==
     /\ pc = "rw"
     /\ IF i > Len(tbl.rw) THEN pc' = AfterRw /\ i' = 1 /\ nm' = nm
        ELSE pc' = pc /\ i' = i + 1 /\ nm' = RwApply(tbl.rw[i], nm)
-    /\ UNCHANGED <<tbl, ln, j, routed, out>>
+    /\ UNCHANGED <<cvars, ln, j, routed, out>>
 
 StepAgg ==
     /\ pc = "agg"
@@ -127,7 +156,7 @@ StepAgg ==
                     ELSE pc' = pc /\ i' = i + 1
             ELSE pc' = pc /\ i' = i + 1 /\ out' = out
     /\ routed' = FALSE
-    /\ UNCHANGED <<tbl, ln, nm, j>>
+    /\ UNCHANGED <<cvars, ln, nm, j>>
 
 NRoutes == IF Dev = "skip_last_route" /\ Len(tbl.routes) > 0 THEN Len(tbl.routes) - 1 ELSE Len(tbl.routes)
 RouteName == IF Dev = "route_filter_on_original_name" THEN ln.name ELSE nm
@@ -152,7 +181,7 @@ StepRoute ==
                               /\ i' = IF Dev = "break_after_first_route" THEN NRoutes + 1 ELSE i + 1
                       [] OTHER -> pc' = "dest" /\ j' = 1 /\ i' = i /\ out' = out         \* route.Dispatch
             ELSE pc' = pc /\ i' = i + 1 /\ UNCHANGED <<j, routed, out>>
-    /\ UNCHANGED <<tbl, ln, nm>>
+    /\ UNCHANGED <<cvars, ln, nm>>
 
 StepDest ==
     /\ pc = "dest"
@@ -166,16 +195,16 @@ StepDest ==
                        THEN back                                                      \* break
                        ELSE pc' = pc /\ j' = j + 1 /\ i' = i
                ELSE pc' = pc /\ j' = j + 1 /\ i' = i /\ out' = out
-    /\ UNCHANGED <<tbl, ln, nm, routed>>
+    /\ UNCHANGED <<cvars, ln, nm, routed>>
 
 Finish == /\ pc = "done"
           /\ pc' = "idle" /\ ln' = NoLine /\ nm' = "" /\ i' = 0 /\ j' = 0 /\ routed' = FALSE /\ out' = NoOut
-          /\ UNCHANGED tbl
+          /\ UNCHANGED cvars
 
-Lines == [name : Names, valid : BOOLEAN]
+Lines == [name : Names, valid : BOOLEAN, newer : NewerVals]
 
 Dispatch == \/ \E l \in Lines : Start(l)
-            \/ StepValidate \/ StepBlack \/ StepRw \/ StepAgg \/ StepRoute \/ StepDest \/ Finish
+            \/ StepValidate \/ StepOrder \/ StepBlack \/ StepRw \/ StepAgg \/ StepRoute \/ StepDest \/ Finish
 
 Next == Admin \/ Dispatch
 Spec == Init /\ [][Next]_vars
@@ -183,20 +212,26 @@ Spec == Init /\ [][Next]_vars
 \* ------------------------------------------------------------- properties
 \* C01 (and the table half of C02): when the loop is through, its outcome is what the
 \* declarative statement allows
-DispatchLoopIsDecl == pc = "done" => Conforms(out, Expect(tbl, ln.name, ln.valid))
+DispatchLoopIsDecl == pc = "done" => Conforms(out, ExpectO(tbl, ord, ln.name, ln.valid, ln.newer))
 
 \* every line has exactly one fate, counted once
 Routed(o) == \E k \in DOMAIN o.rt : \E d \in DOMAIN o.rt[k] : o.rt[k][d] > 0
 ExactlyOneFate ==
     pc = "done" =>
-      LET e == Expect(tbl, ln.name, ln.valid)
+      LET e == ExpectO(tbl, ord, ln.name, ln.valid, ln.newer)
       IN /\ out.in = 1
-         /\ out.invalid + out.black + out.unroutable <= 1
-         /\ (out.invalid + out.black + out.unroutable = 1 => ~Routed(out))
+         /\ out.invalid + out.ooo + out.black + out.unroutable <= 1
+         /\ (out.invalid + out.ooo + out.black + out.unroutable = 1 => ~Routed(out))
          /\ (e.fate = "consumed" => ~Routed(out) /\ out.unroutable = 0)
 \* nothing is handed over before the line is known to be valid and not blacklisted
-NothingEarly == pc \in {"validate", "black", "rw"} /\ Dev = "" => ~Routed(out) /\ out.agg = {}
+NothingEarly == pc \in {"validate", "order", "black", "rw"} /\ Dev = "" => ~Routed(out) /\ out.agg = {}
+\* C02: an invalid line never reaches the order check (it must not touch the order register, and it is
+\* counted invalid, never out-of-order); the check is consulted only when configured
+OrderSeesValidOnly == pc = "order" /\ Dev # "no_return_invalid" => ln.valid
+InvalidNeverOoo == pc = "done" /\ ~ln.valid /\ Dev \notin {"no_return_invalid", "invalid_not_counted"} => out.invalid = 1 /\ out.ooo = 0
+OooOnlyWhenOn == out.ooo > 0 => OrdOn(ord) /\ ~ln.newer
 
-TypeOK == /\ pc \in {"idle", "validate", "black", "rw", "agg", "route", "dest", "done"}
+TypeOK == /\ ord \in OrderSettings
+          /\ pc \in {"idle", "validate", "order", "black", "rw", "agg", "route", "dest", "done"}
           /\ WellFormedTable(tbl)
 =============================================================================
